@@ -183,6 +183,8 @@ XYZ_CASES = [
     [1.0, 1.0, 3.0, 2.0], [3.0, 2.0, 1.0, 1.0],                           # cone opening towards +
     [1.0, 2.0, 3.0, 1.0], [3.0, 1.0, 1.0, 2.0],                           # cone opening towards -
     [-1.0, 0.5, -3.0, 2.0], [-4.0, 3.0, 0.0, 1.0], [0.0, 1.0, 2.0, 3.0],
+    # one of the two points is the apex itself (r = 0)
+    [0.0, 0.0, 5.0, 5.0], [3.0, 2.0, 1.0, 0.0], [0.0, 0.0, -4.0, 2.0], [-2.0, 1.5, 1.0, 0.0],
 ]
 
 
